@@ -63,7 +63,9 @@ def check_serialize(ctx, cfg):
                         and lp.pipe[2][0] == ("I", Poly.const(0)) and lp.pipe[2][1] == ("I", N) and not lp.backward:
                     p_ = el[0].args[1]
                     idx = lp.payload[1] if lp.payload[0] == "I" else None
-                    trav = once and idx is not None and p_[0] == "P" and p_[1] == ("arg", 1) and p_[2] == idx * S
+                    # element i of self: by pointer arithmetic (base + i * size) or as the place `self[i]` / `self.as_slice()[i]` (bounds-checked index)
+                    trav = once and idx is not None and p_[0] == "P" and ((p_[1] == ("arg", 1) and p_[2] == idx * S)
+                                                                         or (p_[1] == ("field", ("arg", 1), (("idx", ("I", idx)),)) and not p_[2].t))
                     form = "loop over 0..N, passing element i of &self"
                 # leaving the loop early only by returning (the `?` on an element error)
                 trav = trav and all(_returns_without_serializing(a, y) for (x, y) in lp.breaks)
@@ -185,6 +187,19 @@ def check_visit_seq(ctx, cfg):
     if ok_ii:
         f = fill[0]
         dest_next = [c for c in a.calls if c.fn == "core::iter::Iterator::next" and c.ret[0] == "O" and a.reaches(c.bb, c.bb)]
+        if not dest_next:
+            # the slot asked for by a bounds-checked access at the builder's own position: `slots.get_mut(*position)` over the builder's whole array
+            itp0 = [c for c in a.calls if c.key == "IntrusiveArrayBuilder<$0,$1>::iter_position"]
+            for c in a.calls:
+                if c.fn == "core::slice::<impl [T]>::get_mut" and c.ret[0] == "O" and a.reaches(c.bb, c.bb) and itp0 and itp0[0].ret[0] == "A":
+                    whole, posp = itp0[0].ret[2][0], itp0[0].ret[2][1]
+                    from ..absint import State
+                    cur = None
+                    if posp[0] == "P" and not posp[2].t:
+                        pb, pp = (posp[1][1], posp[1][2]) if posp[1][0] == "field" else (posp[1], ())
+                        cur = a.read_cell(State(c.mem, c.facts), pb, pp, {"k": "prim", "n": "usize"})
+                    if whole[:3] == ("V", "iter", "slice") and c.args[0] == whole[3] and cur is not None and cur[0] == "I" and c.args[1] == cur:
+                        dest_next.append(c)
         ws = [c for c in a.calls if c.fn == "core::mem::MaybeUninit::<T>::write"]
         full_dest = False
         itp = [c for c in a.calls if c.key == "IntrusiveArrayBuilder<$0,$1>::iter_position"]
@@ -311,7 +326,7 @@ def check(ctx):
     ctx.trusted = ["serde's data model: a tuple of N elements carries no length prefix; SeqAccess / Serializer implementations honour their contracts"]
     ctx.assumptions = ["round-trip equality through a concrete format is outside the claim", "the constant compared with the remaining-size hint (Some(0)) lives in a promoted constant whose value is not inspected",
                        "a source that reports 'nothing left' while still holding elements is outside the property"]
-    cfgs = ["F1"] if ctx.tier == "quick" else ["F1", "F2"]
+    cfgs = ["F1", "F1N"] if ctx.tier == "quick" else ["F1", "F1N", "F2", "F2N"]
     ctx.need(*cfgs)
     for cfg in cfgs:
         verify_models(ctx, cfg, ["IntrusiveArrayBuilder<$0,$1>::new", "IntrusiveArrayBuilder<$0,$1>::iter_position"])
